@@ -410,9 +410,10 @@ def tcp_reader():
                     w.escaped(exc, "TCPTransport.run raised")
             w.check(len(made) == 1, f"on_conn_made called {len(made)}x for one connection")
             w.check(len(lost) == 1, f"on_conn_lost called {len(lost)}x for one connection")
-            w.check(script["unchecked"] == 0,
-                    "the reader loop went round without polling the link watchdog (a silent link "
-                    "would never be dropped)")
+            # (how often it polls is the implementation's business; never polling is not)
+            w.check(not (script["iter"] >= 2 and script["checks"] == 0),
+                    "the reader loop went round without ever polling the link watchdog (a silent "
+                    "link would never be dropped)")
             err = lost[0][1] if lost else None
             exceptional = any(e == "select:exceptional" for e in script["events"])
             if script["first_error"] is not None:
@@ -452,17 +453,19 @@ def async_watchdog_chain(polls):
             now = t0
             try:
                 w.call(gw.check_connection)  # what async_connect does after connecting
+                limit = w.add(w.mul(3, R), 3)
                 for i in range(polls):
+                    if len(redials) > 0 or w.is_true(w.lt(limit, w.sub(now, t0))):
+                        break
                     pending = [h for h in env.loop.handles if not h.cancelled and not
                                getattr(h, "fired", False)]
-                    if len(redials) > 0:
-                        break
+                    w.check(len(pending) >= 1,
+                            f"after poll {i} the asyncio link watchdog is not armed any more")
                     w.check(len(pending) == 1,
-                            f"after poll {i} the asyncio link watchdog is not armed exactly once "
-                            f"({len(pending)} pending timers)")
+                            f"after poll {i} the asyncio link watchdog is armed {len(pending)} times")
                     h = pending[0]
                     w.check(w.and_(w.lt(0, h.delay), w.le(h.delay, w.add(R, 1))),
-                            "watchdog period is not about reconnect_timeout")
+                            "watchdog period is longer than about reconnect_timeout")
                     h.fired = True
                     now = w.add(now, h.delay)
                     env.frozen = now
@@ -668,8 +671,8 @@ def build(tier):
         Harness("watchdog-R", watchdog("R"),
                 {"polls": K, "latency_bound": "R (the statement as written)"},
                 goals=["alive", "dropped"], doc="answered within R => never dropped"),
-        Harness("async-watchdog-chain", async_watchdog_chain(5),
-                {"polls": "<= 5", "R": "symbolic > 0", "link": "silent"}, goals=["dropped"],
+        Harness("async-watchdog-chain", async_watchdog_chain(40),
+                {"polls": "until the link is dropped or 3R + 3 s have passed (<= 40)", "R": "symbolic > 0", "link": "silent"}, goals=["dropped"],
                 doc="asyncio TCP watchdog re-arms itself; silent link dropped and re-dialled"),
         Harness("events", events(), {"protocols": sorted(protocol_classes())},
                 goals=["made", "lost(None)", "lost(exc)", "made+lost(exc)+made", "peer-close"],
